@@ -206,9 +206,9 @@ Theorem C09_heightpres_reader_presents_content : forall c, h_wf c = true -> h_re
 Proof. exact h_mm_read_enc. Qed.
 Print Assumptions C09_heightpres_reader_presents_content.
 
-(* single-step files (known findings region 11), witnesses replayed on the library: a one-step temperature file with
-   3 layers and a one-step height_pressure file raise; a one-step temperature file with ONE layer opens with fabricated
-   dimensions TSTEP = 2, LAY = 0 (the for loop falls through) *)
+(* single-step files (known finding region 11), witnesses replayed on the library: one-step temperature files (3 layers,
+   1 layer) and a one-step height_pressure file raise. (Before the repair 9020b2c the 1-layer temperature file opened
+   with fabricated dimensions TSTEP = 2, LAY = 0.) *)
 Definition C09_temperature_single (nz : nat) : temperature :=
   {| t_nx := 2; t_ny := 1; t_nz := Z.of_nat nz;
      t_steps := [TStep 0 4001 [1065353216; 1073741824] (repeat [1077936128; 1082130432] nz)] |}.
@@ -216,9 +216,8 @@ Theorem C09_temperature_single_step_refuted :
   (let c := C09_temperature_single 3 in
    t_wf c = true /\ t_mm_read (t_ny c) (t_nx c) (t_enc c) (4 * Z.of_nat (length (t_enc c))) = Err) /\
   (let c := C09_temperature_single 1 in
-   t_wf c = true /\ exists v, t_mm_read (t_ny c) (t_nx c) (t_enc c) (4 * Z.of_nat (length (t_enc c))) = Ok v
-                              /\ tv_ntimes v = 2 /\ tv_nz v = 0).
-Proof. vm_compute. repeat split; try reflexivity. eexists. repeat split; reflexivity. Qed.
+   t_wf c = true /\ t_mm_read (t_ny c) (t_nx c) (t_enc c) (4 * Z.of_nat (length (t_enc c))) = Err).
+Proof. vm_compute. repeat split; reflexivity. Qed.
 Print Assumptions C09_temperature_single_step_refuted.
 
 Theorem C09_heightpres_single_step_refuted :
